@@ -26,13 +26,48 @@ def MStmt.slots : MStmt → List Slot
   | .bytes b f => [.bytes b f none]
   | .arr b f => [.arr b f]
   | .sub b f t => [.sub b f t none]
+  | .forInt b w e f => [.ints b w e f none]
   | _ => []
 
-theorem layoutM_cons' {st : MStmt} {r : List MStmt} {m : List Slot} (h : layoutM (st :: r) = some m) :
-    st.Frag ∧ ∃ m', layoutM r = some m' ∧ m = st.slots ++ m' := by
-  obtain ⟨h1, m', h2, h3⟩ := layoutM_cons h
-  refine ⟨h1, m', h2, ?_⟩
-  cases h1 <;> exact h3
+/-- the statements `layoutZ` accepts: the straight-line fragment, literal zero bytes in the data block, and `range`
+    loops over integer arrays -/
+def MStmt.FragZ (st : MStmt) : Prop := st.Frag ∨ (∃ n, st = .zeros .D n) ∨ (∃ b w e f, st = .forInt b w e f)
+
+theorem layoutM_cons' {st : MStmt} {r : List MStmt} {m : List Slot} (h : layoutZ (st :: r) = some m) :
+    st.FragZ ∧ ∃ m', layoutZ r = some m' ∧ m = st.slots ++ m' := by
+  cases st with
+  | int b w e f =>
+    simp only [layoutZ, Option.map_eq_some_iff] at h; obtain ⟨m', h1, rfl⟩ := h
+    exact ⟨Or.inl (.int b w e f), m', h1, rfl⟩
+  | quad b w e f =>
+    simp only [layoutZ, Option.map_eq_some_iff] at h; obtain ⟨m', h1, rfl⟩ := h
+    exact ⟨Or.inl (.quad b w e f), m', h1, rfl⟩
+  | u8 b f =>
+    simp only [layoutZ, Option.map_eq_some_iff] at h; obtain ⟨m', h1, rfl⟩ := h
+    exact ⟨Or.inl (.u8 b f), m', h1, rfl⟩
+  | bytes b f =>
+    simp only [layoutZ, Option.map_eq_some_iff] at h; obtain ⟨m', h1, rfl⟩ := h
+    exact ⟨Or.inl (.bytes b f), m', h1, rfl⟩
+  | arr b f =>
+    simp only [layoutZ, Option.map_eq_some_iff] at h; obtain ⟨m', h1, rfl⟩ := h
+    exact ⟨Or.inl (.arr b f), m', h1, rfl⟩
+  | sub b f t =>
+    simp only [layoutZ, Option.map_eq_some_iff] at h; obtain ⟨m', h1, rfl⟩ := h
+    exact ⟨Or.inl (.sub b f t), m', h1, rfl⟩
+  | setFmt f k => simp only [layoutZ] at h; exact ⟨Or.inl (.setFmt f k), m, h, rfl⟩
+  | assignLen f g w => simp only [layoutZ] at h; exact ⟨Or.inl (.assignLen f g w), m, h, rfl⟩
+  | zeros b n =>
+    cases b with
+    | P => simp [layoutZ] at h
+    | D => simp only [layoutZ] at h; exact ⟨Or.inr (Or.inl ⟨n, rfl⟩), m, h, rfl⟩
+  | forSub _ _ _ => simp [layoutZ] at h
+  | forInt b w e f =>
+    simp only [layoutZ, Option.map_eq_some_iff] at h; obtain ⟨m', h1, rfl⟩ := h
+    exact ⟨Or.inr (Or.inr ⟨b, w, e, f, rfl⟩), m', h1, rfl⟩
+  | ifNonZero _ _ => simp [layoutZ] at h
+  | ifNonZeroArr _ _ => simp [layoutZ] at h
+  | ifWordCount _ _ => simp [layoutZ] at h
+  | subHead _ _ => simp [layoutZ] at h
 
 theorem slotAt_mem (f : String) : ∀ (l : List Slot) (off : Nat) (r : Nat × Nat), slotAt f l off = some r →
     f ∈ l.map Slot.field
@@ -53,19 +88,22 @@ theorem slotAt_mem (f : String) : ∀ (l : List Slot) (off : Nat) (r : Nat × Na
         exact List.mem_cons_of_mem _ (slotAt_mem f l _ r h)
 
 /-- a field of the layout is mentioned by some statement -/
-theorem layout_field_mentioned (f : String) : ∀ (stmts : List MStmt) (m : List Slot), layoutM stmts = some m →
+theorem layout_field_mentioned (f : String) : ∀ (stmts : List MStmt) (m : List Slot), layoutZ stmts = some m →
     f ∈ m.map Slot.field → ∃ st ∈ stmts, st.mentions f = true
-  | [], m, h, hf => by simp only [layoutM, Option.some.injEq] at h; subst h; simp at hf
+  | [], m, h, hf => by simp only [layoutZ, Option.some.injEq] at h; subst h; simp at hf
   | st :: r, m, h, hf => by
     obtain ⟨hfrag, m', hl', rfl⟩ := layoutM_cons' h
     rw [List.map_append, List.mem_append] at hf
     rcases hf with hf | hf
     · refine ⟨st, List.mem_cons_self .., ?_⟩
-      cases hfrag <;> simp [MStmt.slots, Slot.field] at hf <;> simp [MStmt.mentions, hf]
+      rcases hfrag with hfrag | ⟨n, rfl⟩ | ⟨b, w, e, g, rfl⟩
+      · cases hfrag <;> simp [MStmt.slots, Slot.field] at hf <;> simp [MStmt.mentions, hf]
+      · simp [MStmt.slots] at hf
+      · simp [MStmt.slots, Slot.field] at hf; simp [MStmt.mentions, hf]
     · obtain ⟨st', h1, h2⟩ := layout_field_mentioned f r m' hl' hf
       exact ⟨st', List.mem_cons_of_mem _ h1, h2⟩
 
-theorem slotAt_none_of_not_mentioned (f : String) (r : List MStmt) (m' : List Slot) (hl : layoutM r = some m')
+theorem slotAt_none_of_not_mentioned (f : String) (r : List MStmt) (m' : List Slot) (hl : layoutZ r = some m')
     (hno : r.filter (·.mentions f) = []) (off : Nat) : slotAt f (m'.filter (·.blk == .P)) off = none := by
   cases h : slotAt f (m'.filter (·.blk == .P)) off with
   | none => rfl
@@ -79,7 +117,7 @@ theorem slotAt_none_of_not_mentioned (f : String) (r : List MStmt) (m' : List Sl
     rw [hno] at this; cases this
 
 /-- one statement that does not touch `f`, run on two assignments that differ on `f` only -/
-theorem same_step (C : Codecs) (andx : Bool) (f : String) (st : MStmt) (hfrag : st.Frag)
+theorem same_step_frag (C : Codecs) (andx : Bool) (f : String) (st : MStmt) (hfrag : st.Frag)
     (hno : st.mentions f = false) (sa sb sa' sb' : MState) (hag : AgreeOff f sa.env sb.env)
     (ha : runMStmt C andx sa st = .ok sa') (hb : runMStmt C andx sb st = .ok sb') :
     AgreeOff f sa'.env sb'.env ∧ ∃ pb db, sa'.P = sa.P ++ pb ∧ sb'.P = sb.P ++ pb ∧
@@ -215,9 +253,43 @@ theorem same_step (C : Codecs) (andx : Bool) (f : String) (st : MStmt) (hfrag : 
       intro m' off r h
       simpa [MStmt.slots] using h
 
+/-- `same_step` for every statement `layoutZ` accepts: literal zero bytes are the same in both runs -/
+theorem same_step (C : Codecs) (andx : Bool) (f : String) (st : MStmt) (hfrag : st.FragZ)
+    (hno : st.mentions f = false) (sa sb sa' sb' : MState) (hag : AgreeOff f sa.env sb.env)
+    (ha : runMStmt C andx sa st = .ok sa') (hb : runMStmt C andx sb st = .ok sb') :
+    AgreeOff f sa'.env sb'.env ∧ ∃ pb db, sa'.P = sa.P ++ pb ∧ sb'.P = sb.P ++ pb ∧
+      sa'.D = sa.D ++ db ∧ sb'.D = sb.D ++ db ∧ sa'.head = sa.head ∧ sb'.head = sb.head ∧
+      (∀ m' off r, slotAt f ((st.slots ++ m').filter (·.blk == .P)) off = some r →
+        slotAt f (m'.filter (·.blk == .P)) (off + pb.length) = some r) := by
+  rcases hfrag with hfrag | ⟨n, rfl⟩ | ⟨b, w, e, g, rfl⟩
+  · exact same_step_frag C andx f st hfrag hno sa sb sa' sb' hag ha hb
+  · rw [runMStmt] at ha hb
+    simp only [Outcome.ok.injEq] at ha hb
+    subst ha hb
+    refine ⟨hag, [], List.replicate n 0, by simp [MState.app], by simp [MState.app], rfl, rfl, rfl, rfl, ?_⟩
+    intro m' off r h
+    simpa [MStmt.slots] using h
+  · -- a loop over another field's integers: both runs see the same list
+    have hgf : g ≠ f := by simpa [MStmt.mentions] using hno
+    rw [runMStmt] at ha hb
+    rw [hag g hgf] at ha
+    split at hb <;> try cases hb
+    rename_i xs hg
+    rw [hg] at ha
+    simp only [Outcome.ok.injEq] at ha
+    subst ha
+    refine ⟨by cases b <;> exact hag, ?_⟩
+    cases b
+    · refine ⟨xs.flatMap (intBytes w e), [], rfl, rfl, by simp [MState.app], by simp [MState.app], rfl, rfl, ?_⟩
+      intro m' off r h
+      simp [MStmt.slots, Slot.blk, slotAt] at h
+    · refine ⟨[], xs.flatMap (intBytes w e), by simp [MState.app], by simp [MState.app], rfl, rfl, rfl, rfl, ?_⟩
+      intro m' off r h
+      simpa [MStmt.slots, Slot.blk] using h
+
 /-- statements none of which touches `f` append the same bytes in both runs -/
 theorem same_run (C : Codecs) (andx : Bool) (f : String) (stmts : List MStmt) :
-    ∀ (m : List Slot) (sa sb sa' sb' : MState), layoutM stmts = some m → stmts.filter (·.mentions f) = [] →
+    ∀ (m : List Slot) (sa sb sa' sb' : MState), layoutZ stmts = some m → stmts.filter (·.mentions f) = [] →
       AgreeOff f sa.env sb.env →
       runMStmts C andx sa stmts = .ok sa' → runMStmts C andx sb stmts = .ok sb' →
       ∃ pb db, sa'.P = sa.P ++ pb ∧ sb'.P = sb.P ++ pb ∧ sa'.D = sa.D ++ db ∧ sb'.D = sb.D ++ db ∧
@@ -254,7 +326,7 @@ theorem filterP_cons_D (sl : Slot) (l : List Slot) (h : sl.blk = .D) :
 
 /-- if the slot of `f` is found although the rest of the program does not touch `f`, the first
     statement emits it as a fixed-width parameter slot -/
-theorem slotAt_first_stmt (f : String) (st : MStmt) (hfrag : st.Frag) (m' : List Slot)
+theorem slotAt_first_stmt_frag (f : String) (st : MStmt) (hfrag : st.Frag) (m' : List Slot)
     (hnone : ∀ off, slotAt f (m'.filter (·.blk == .P)) off = none) (off0 off w : Nat)
     (h : slotAt f ((st.slots ++ m').filter (·.blk == .P)) off0 = some (off, w)) :
     off = off0 ∧ ((∃ e, st = .int .P w e f) ∨ (∃ e, st = .quad .P w e f) ∨ (st = .u8 .P f ∧ w = 1)) := by
@@ -307,9 +379,22 @@ theorem slotAt_first_stmt (f : String) (st : MStmt) (hfrag : st.Frag) (m' : List
   case setFmt g k => rw [hnone] at h; cases h
   case assignLen g g' k => rw [hnone] at h; cases h
 
+theorem slotAt_first_stmt (f : String) (st : MStmt) (hfrag : st.FragZ) (m' : List Slot)
+    (hnone : ∀ off, slotAt f (m'.filter (·.blk == .P)) off = none) (off0 off w : Nat)
+    (h : slotAt f ((st.slots ++ m').filter (·.blk == .P)) off0 = some (off, w)) :
+    off = off0 ∧ ((∃ e, st = .int .P w e f) ∨ (∃ e, st = .quad .P w e f) ∨ (st = .u8 .P f ∧ w = 1)) := by
+  rcases hfrag with hfrag | ⟨n, rfl⟩ | ⟨b, w', e, g, rfl⟩
+  · exact slotAt_first_stmt_frag f st hfrag m' hnone off0 off w h
+  · simp only [MStmt.slots, List.nil_append] at h
+    rw [hnone] at h; cases h
+  · simp only [MStmt.slots, List.cons_append, List.nil_append] at h
+    cases b
+    · rw [filterP_cons_P _ _ rfl] at h; simp [slotAt] at h
+    · rw [filterP_cons_D _ _ rfl, hnone] at h; cases h
+
 /-- the two runs up to, through and after the one statement that touches `f` -/
 theorem locality_run (C : Codecs) (andx : Bool) (f : String) (stmts : List MStmt) :
-    ∀ (m : List Slot) (sa sb sa' sb' : MState) (off0 off w : Nat), layoutM stmts = some m →
+    ∀ (m : List Slot) (sa sb sa' sb' : MState) (off0 off w : Nat), layoutZ stmts = some m →
       (stmts.filter (·.mentions f)).length = 1 →
       slotAt f (m.filter (·.blk == .P)) off0 = some (off, w) →
       AgreeOff f sa.env sb.env → sa.P = sb.P → sa.P.length = off0 → sa.D = sb.D → sa.head = sb.head →
@@ -359,7 +444,7 @@ theorem locality_run (C : Codecs) (andx : Bool) (f : String) (stmts : List MStmt
 
 /-! ### the envelope, and the statement about encoded commands -/
 
-theorem runMStmt_head (C : Codecs) (andx : Bool) (s s' : MState) (st : MStmt) (hf : st.Frag)
+theorem runMStmt_head_frag (C : Codecs) (andx : Bool) (s s' : MState) (st : MStmt) (hf : st.Frag)
     (h : runMStmt C andx s st = .ok s') : s'.head = s.head := by
   cases hf <;> rw [runMStmt] at h
   case int b w e g => cases hg : getN s.env g <;> simp [hg] at h; subst h; cases b <;> rfl
@@ -379,8 +464,19 @@ theorem runMStmt_head (C : Codecs) (andx : Bool) (s s' : MState) (st : MStmt) (h
   case assignLen g g' w => split at h <;> try cases h
                            all_goals rfl
 
+theorem runMStmt_head (C : Codecs) (andx : Bool) (s s' : MState) (st : MStmt) (hf : st.FragZ)
+    (h : runMStmt C andx s st = .ok s') : s'.head = s.head := by
+  rcases hf with hf | ⟨n, rfl⟩ | ⟨b, w, e, g, rfl⟩
+  · exact runMStmt_head_frag C andx s s' st hf h
+  · rw [runMStmt] at h
+    simp only [Outcome.ok.injEq] at h
+    subst h; rfl
+  · rw [runMStmt] at h
+    split at h <;> try cases h
+    cases b <;> rfl
+
 theorem runMStmts_head (C : Codecs) (andx : Bool) (stmts : List MStmt) :
-    ∀ (m : List Slot) (s s' : MState), layoutM stmts = some m → runMStmts C andx s stmts = .ok s' →
+    ∀ (m : List Slot) (s s' : MState), layoutZ stmts = some m → runMStmts C andx s stmts = .ok s' →
       s'.head = s.head := by
   induction stmts with
   | nil => intro m s s' _ h; rw [runMStmts] at h; cases h; rfl
